@@ -13,6 +13,7 @@ def main():
     run = vlib.Run('C02')
     run.coq_gate()
     cp.proto_component_check(run, {'C02'}, run.n(300, 8000), run.n(250, 6000))
+    cp.glue_cases(run)      # MQ.send / MQ.recv carry the ids between the two sockets of a filter
     # the payload clause ("unaltered"), on the implementation: what MQ.frames2topicmsgs hands to the publisher decodes
     # (MQ.topicmsgs2frames) to the same data, shape, format and - for raw images - the same pixels, whatever the memory
     # layout of the array.  Same generator and oracle as C09 (where the model comparison lives); oracle only here.
